@@ -194,7 +194,7 @@ def sampleBilinear [HasFloor R] (I : Pattern R) (h w : Nat) (y x : R) : R :=
 
 /-- `shift_origin_to(origin_coordinate = coord)` for one pattern whose fitted origin is `origin`
 (row, column):  `shifted_grid = (base_grid + (origin - coord)) % (H, W)`, normalised with
-`2 * g / (size - 1) - 1` and sampled with `align_corners=True` (which un-normalises with
+`2 * g / max(size - 1, 1) - 1` (as repaired: an axis of length 1 has the single coordinate 0) and sampled with `align_corners=True` (which un-normalises with
 `(g + 1) / 2 * (size - 1)`), bilinear, zero padding. -/
 def shiftOriginTo [HasFloor R] (coord : R × R) (h w : Nat) (origin : R × R) (I : Pattern R) : Pattern R :=
   let sy := origin.1 - coord.1                            -- shift_yx = origin_fitted - coordinate
@@ -202,8 +202,8 @@ def shiftOriginTo [HasFloor R] (coord : R × R) (h w : Nat) (origin : R × R) (I
   (List.range h).map (fun i => (List.range w).map (fun j =>
     let gy := fmod (Num.ofNat i + sy) h                   -- (base_grid + shift) % size
     let gx := fmod (Num.ofNat j + sx) w
-    let ny := Num.two * gy / (Num.ofNat (h - 1)) - Num.one     -- grid_y_norm
-    let nx := Num.two * gx / (Num.ofNat (w - 1)) - Num.one     -- grid_x_norm
+    let ny := Num.two * gy / (Num.ofNat (max (h - 1) 1)) - Num.one     -- grid_y_norm = 2 g / max(H - 1, 1) - 1
+    let nx := Num.two * gx / (Num.ofNat (max (w - 1) 1)) - Num.one     -- grid_x_norm
     let y := (ny + Num.one) / Num.two * Num.ofNat (h - 1)      -- align_corners=True un-normalisation
     let x := (nx + Num.one) / Num.two * Num.ofNat (w - 1)
     sampleBilinear I h w y x))
